@@ -72,23 +72,25 @@ type lostRec struct {
 	Cause string `json:"cause"`
 }
 type step struct {
-	Op     string              `json:"op"`
-	A      string              `json:"a,omitempty"`
-	V      int64               `json:"v,omitempty"`
-	To     string              `json:"to,omitempty"`
-	Vec    map[string]int64    `json:"vec,omitempty"`
-	Res    string              `json:"res,omitempty"`
-	Why    string              `json:"why,omitempty"`
-	Forced bool                `json:"forced,omitempty"`
-	H      int64               `json:"h"`
-	Lp     int64               `json:"lp"`
-	St     map[string]acctProj `json:"st,omitempty"`
-	Lost   []lostRec           `json:"lost,omitempty"`
-	Stale  []lostRec           `json:"stale,omitempty"`
-	Tot    map[string]int64    `json:"tot,omitempty"`
-	Tot0   map[string]int64    `json:"tot0,omitempty"`
-	Xst    strMap              `json:"xst,omitempty"`
+	Op      string              `json:"op"`
+	A       string              `json:"a,omitempty"`
+	V       int64               `json:"v,omitempty"`
+	To      string              `json:"to,omitempty"`
+	Vec     map[string]int64    `json:"vec,omitempty"`
+	Res     string              `json:"res,omitempty"`
+	Why     string              `json:"why,omitempty"`
+	Forced  bool                `json:"forced,omitempty"`
+	H       int64               `json:"h"`
+	Lp      int64               `json:"lp"`
+	St      map[string]acctProj `json:"st,omitempty"`
+	Lost    []lostRec           `json:"lost,omitempty"`
+	Stale   []lostRec           `json:"stale,omitempty"`
+	Tot     map[string]int64    `json:"tot,omitempty"`
+	Tot0    map[string]int64    `json:"tot0,omitempty"`
+	Xst     strMap              `json:"xst,omitempty"`
+	Restart bool                `json:"restart,omitempty"`
 }
+
 // strMap decodes a TLA+ function with string domain; the empty function is printed as an empty array
 type strMap map[string]string
 
@@ -134,18 +136,18 @@ func machinery(what string, args ...interface{}) *outcome {
 
 // world is one simulated network with the bookkeeping needed to evaluate the property on it.
 type world struct {
-	sim      icsim.Simulator
-	all      []module.Address // every account that can hold ICX or stake
-	unit     *big.Int
-	base     int64 // real height of model block 0
-	addr     map[string]module.Address
-	name     map[string]string // address string -> abstract name
-	accts    []string
-	targets  []string
-	treasury module.Address
+	sim        icsim.Simulator
+	all        []module.Address // every account that can hold ICX or stake
+	unit       *big.Int
+	base       int64 // real height of model block 0
+	addr       map[string]module.Address
+	name       map[string]string // address string -> abstract name
+	accts      []string
+	targets    []string
+	treasury   module.Address
 	governance module.Address
-	curLock  int64
-	tot0     [4]*big.Int // supply, total stake, total delegation, total bond at model block 0
+	curLock    int64
+	tot0       [4]*big.Int // supply, total stake, total delegation, total bond at model block 0
 }
 
 func (w *world) totals() [4]*big.Int {
@@ -903,6 +905,19 @@ func runBehaviour(b behaviour, rnd *rand.Rand) (res *outcome, blocks int, info m
 			return o, blocks, info
 		}
 		prev = cur
+		if end.Restart {
+			// the node restarts from its database: all later reads decode the stored accounts, timers and P-Rep records
+			ns, err := icsim.VerifRestart(w.sim)
+			if err != nil {
+				return machinery("restart from the database failed: %v", err), blocks, info
+			}
+			w.sim = ns
+			sim = ns
+			if _, o := w.checkInvariants(prev); o != nil {
+				o.what = "after a restart from the database: " + o.what
+				return o, blocks, info
+			}
+		}
 		i = j + 1
 	}
 	return nil, blocks, info
